@@ -44,7 +44,17 @@ var solvers = []solverSpec{
 
 func smtText(c *Ctx, o *Obligation) string {
 	var b strings.Builder
+	// sorts and datatypes first (heap classes seeded from an earlier pass may mention them before they are re-declared)
 	for _, d := range c.decls {
+		if strings.HasPrefix(d, "(declare-datatypes") || strings.HasPrefix(d, "(declare-sort") {
+			b.WriteString(d)
+			b.WriteByte('\n')
+		}
+	}
+	for _, d := range c.decls {
+		if strings.HasPrefix(d, "(declare-datatypes") || strings.HasPrefix(d, "(declare-sort") {
+			continue
+		}
 		b.WriteString(d)
 		b.WriteByte('\n')
 	}
